@@ -15,6 +15,11 @@ theorem stableSort_perm {α : Type} (le : α → α → Bool) : ∀ (l : List α
   | [] => List.Perm.refl _
   | x :: l => (insertBy_perm le x _).trans ((stableSort_perm le l).cons x)
 
+theorem sortn_perm (l : List Str) : (sortn l).Perm l := by
+  unfold sortn
+  have := (stableSort_perm (fun a b : Str × Nat => decide (a.2 ≤ b.2)) (l.map fun s => (s, sortKey s))).map (·.1)
+  simpa [List.map_map, Function.comp_def] using this
+
 def AllDig (s : Str) : Prop := ∀ c ∈ s, isDig c = true
 
 /-- written the way a number prints: no leading zero, or "0" itself -/
